@@ -57,6 +57,12 @@ Helpers ==
     /\ (n # <<>> => LET rel == Sub(t, 1, Len(t) - 1) IN          \* drop the final dot: relative spelling
                      /\ (~IsFqdnSpec(rel) => FqdnSpec(rel) = t /\ Parse(rel).labels = n))
 
+SteppersFromStarts ==   \* the steppers computed from one parse are the steppers
+  LET t == s  p == Parse(t) IN          \* over the raw strings: every arrangement of dots and backslashes is among them
+  kind = "str" /\ p.st = "ok" =>
+    /\ \A off \in 0..Len(t) : NextLabelFrom(p.starts, Len(t), off) = NextLabelSpec(t, off)
+    /\ \A k \in 0..(Len(p.starts) + 1) : PrevLabelFrom(p.starts, Len(t), k) = PrevLabelSpec(t, k)
+
 \* ---- invariants over raw strings
 StrInv ==
   kind = "str" =>
